@@ -1172,4 +1172,56 @@ theorem fromFormatStr_no_panic (O : Oracles) (sIn fmt : List Nat) : fromFormatSt
   · rw [h]; simp
   · rw [h]; exact formatParse_no_panic O f sIn hwf
 
+
+def iso8601Std : Format := ⟨[⟨.Year, some 45, none, false⟩, ⟨.Month, some 45, none, false⟩, ⟨.Day, some 84, none, false⟩,
+  ⟨.Hour, some 58, none, false⟩, ⟨.Minute, some 58, none, false⟩, ⟨.Second, some 46, none, false⟩,
+  ⟨.Subsecond, some 32, none, false⟩]⟩
+
+theorem iso8601Std_is_const : constByName? "ISO8601_STD" = some iso8601Std := by decide +kernel
+
+theorem dig_lt (v : Int) : dig v < 128 := by unfold dig; omega
+
+/-- `Epoch::to_isoformat`: for every canonical epoch in range with year 0000–9999 the result is
+    `YYYY-MM-DDTHH:MM:SS.ffffff` of THE fields of the epoch in its own scale (six sub-second digits, truncated) -/
+theorem toIsoformat_spec (O : Oracles) (e : Ep) (F : Spec.Efmt.Fields) (hd : e.dur.Canon) (hr : Cal.InCal e.dur.val)
+    (hF : Spec.Efmt.IsFields e.ts.name e.dur.val F) (hy : 0 ≤ F.y ∧ F.y ≤ 9999) :
+    ∃ text, toIsoformat O iso8601Std e = .ok text ∧ Spec.Efmt.isoformatText F = some text := by
+  obtain ⟨y, mo, dd, h, mi, s, ns, doy, hg, hdoy, hF0⟩ := model_fields_spec e hd hr
+  have hFF := isFields_unique _ _ _ _ hF hF0
+  have hF0' := hF0
+  unfold Spec.Efmt.IsFields at hF0'
+  dsimp only at hF0'
+  obtain ⟨hv, h1, h2, m1, m2, s1, s2, n1, n2, _, _, _, _⟩ := hF0'
+  have hv' := (Cal.validDate_iff _).mp hv
+  simp only at hv'
+  have hml := Cal.monthLen_range y mo hv'.1 hv'.2.1
+  have hy' : 0 ≤ y ∧ y ≤ 9999 := by rw [hFF] at hy; exact hy
+  unfold toIsoformat formatterOutput formatterFmt
+  have hng : iso8601Std.needGregorian = true := by decide
+  rw [if_pos hng, hg]
+  simp only [iso8601Std, gregGo, tokText, Item.sepText, Bool.not_false, Bool.true_or, if_true]
+  rw [Cal.fmtInt4_eq y hy', Cal.fmtInt2_eq mo (by omega), Cal.fmtInt2_eq dd (by omega), Cal.fmtInt2_eq h (by omega),
+    Cal.fmtInt2_eq mi (by omega), Cal.fmtInt2_eq s (by omega), Cal.fmtInt9_eq ns (by omega)]
+  unfold Spec.Efmt.isoformatText
+  rw [hFF]
+  simp only [hy', and_self, if_true]
+  simp [dig4, dig2, dig9, Nat.not_le.mpr (dig_lt _)]
+
+def rfc3339Flex : Format := ⟨[⟨.Year, some 45, none, false⟩, ⟨.Month, some 45, none, false⟩, ⟨.Day, some 84, none, false⟩,
+  ⟨.Hour, some 58, none, false⟩, ⟨.Minute, some 58, none, false⟩, ⟨.Second, some 46, none, false⟩,
+  ⟨.Subsecond, none, none, true⟩, ⟨.OffsetHours, none, none, false⟩]⟩
+
+theorem rfc3339Flex_is_const : constByName? "RFC3339_FLEX" = some rfc3339Flex := by decide +kernel
+
+theorem rfc3339Flex_output (O : Oracles) (e : Ep) (off : Dur) (y mo d h mi s ns : Int) (zt : List Nat)
+    (hg : Cal.computeGregorian e.dur e.ts = .ok (y, mo, d, h, mi, s, ns)) (hz : offsetText off = .ok zt) :
+    formatterFmt O rfc3339Flex e off =
+      .ok (Cal.fmtInt 4 y ++ [45] ++ Cal.fmtInt 2 mo ++ [45] ++ Cal.fmtInt 2 d ++ [84] ++ Cal.fmtInt 2 h ++ [58]
+        ++ Cal.fmtInt 2 mi ++ [58] ++ Cal.fmtInt 2 s ++ (if ns > 0 then [46] ++ Cal.fmtInt 9 ns else []) ++ zt) := by
+  unfold formatterFmt
+  have hng : rfc3339Flex.needGregorian = true := by decide
+  rw [if_pos hng, hg]
+  by_cases h1 : ns > 0 <;>
+    simp [rfc3339Flex, gregGo, tokText, Item.sepText, List.append_assoc, h1, hz]
+
 end Hifi.Efmt
